@@ -158,6 +158,27 @@ def gen_cases(rng, tier):
       node = {"k": "sum", "a": [spec.gen_form(rng, rmax=1.0), node]}
     rs = sorted(set(round(rng.uniform(0.4, 5.0), 3) for _ in range(5)))
     cases.append({"kind": "tree", "route": "potable" if i % 2 else "api", "node": node, "forms": [], "tables": [], "rs": rs, "int_exponent": repr(n_)})
+  # pow() with a CONSTANT whole-number exponent and a base that is negative or exactly zero at the evaluated separation
+  # (the manual's own first pow() example squares a negative sum; a harmonic well is pow(as.polynomial -2 1, as.constant 2)):
+  # the energy is well defined there, so the offered derivatives must be its derivatives
+  nn = 18 if tier == "quick" else 180
+  for i in range(nn):
+    r0 = rng.choice([1.0, 1.5, 2.0, 2.5])
+    c = rng.choice([1.0, 2.0, -0.5])
+    base = {"k": "form", "name": "polynomial", "p": [-c * r0, c]}
+    if i % 3 == 1:
+      base = {"k": "sum", "a": [{"k": "form", "name": "constant", "p": [-1.0]}, {"k": "form", "name": "polynomial", "p": [0.0, 0.3]}]}
+      r0 = 1.0 / 0.3
+    elif i % 3 == 2:
+      base = {"k": "sum", "a": [{"k": "form", "name": "morse", "p": [spec.rfloat(rng, 0.5, 1.5), r0, spec.rfloat(rng, 0.5, 2.0)]}, {"k": "form", "name": "constant", "p": [0.2]}]}
+    n_ = [2, 3, 2.0, 1, 4, 3.0][i % 6]
+    node = {"k": "pow", "a": [base, {"k": "form", "name": "constant", "p": [n_]}]}
+    if (i // 6) % 3 == 1:
+      node = {"k": "sum", "a": [node, spec.gen_form(rng, rmax=1.0)]}
+    elif (i // 6) % 3 == 2:
+      node = {"k": "product", "a": [spec.gen_form(rng, positive=True), node]}
+    rs = sorted(set([round(r0, 12), round(r0 * 0.5, 6), round(r0 * 1.5, 6), round(r0 + 0.25, 6), max(0.1, round(r0 - 0.25, 6))]))
+    cases.append({"kind": "tree", "route": "potable" if i % 2 else "api", "node": node, "forms": [], "tables": [], "rs": rs, "nonpositive_base": repr(n_)})
   # per-form sweeps (incl. heavy ZBL at large r and r = 0 for regular forms)
   per = 4 if tier == "quick" else 40
   for name in ALLFORMS:
@@ -277,6 +298,8 @@ def run_case(case, ctx):
     ctx.cls("node:" + k)
   o = oracle.ValueOracle(M, refnode, analytic=spec.all_analytic(node))
   ctx.cls("all_analytic" if o.analytic else "has_numeric_component")
+  if case.get("nonpositive_base"):
+    ctx.cls("pow_constant_exponent_nonpositive_base:" + case["nonpositive_base"])
   if case.get("int_exponent"):
     ctx.cls("pow_whole_number_exponent:" + case["int_exponent"])
   if case.get("zero_factor"):
